@@ -892,17 +892,24 @@ func toRes(t fp.Try[int]) res {
 	return fail(t.Failed().Get())
 }
 
-// check runs n from state s on the library and on the reference.
-func check(n *node, arg, s int) (verdict, *refm) {
-	m := &refm{firstFail: -1}
-	wantR, wantS := m.ref(n, arg, s)
-	m.outR, m.outS = wantR, wantS
-	lg := &logger{}
-	var got fp.Try[int]
-	var gotS int
-	if p := mc.Catch(func() { got, gotS = build(funcs{lg}, n, arg).Run(s) }); p != nil {
-		return verdict{"panic", fmt.Sprintf("panicked: %v", p)}, m
+// takesIterator: the program contains a combinator whose ARGUMENT is an fp.Iterator supplied
+// by the caller (FoldM, Traverse, SequenceIterator). An iterator is single-use, so a StateT
+// built from one is only demanded to be right the first time it is run.
+func takesIterator(n *node) bool {
+	if n.op == oFoldM || n.op == oTraverse && n.v == 1 || n.op == oSequence2 && n.v == 1 {
+		return true
 	}
+	for _, k := range n.kids {
+		if takesIterator(k) {
+			return true
+		}
+	}
+	return false
+}
+
+// compare judges one run of the library against the reference run from the same state.
+func compare(m *refm, lg *logger, got fp.Try[int], gotS int) verdict {
+	wantR, wantS := m.outR, m.outS
 	gotR := toRes(got)
 	allowed := map[string]bool{}
 	for _, e := range m.l.entries {
@@ -917,19 +924,65 @@ func check(n *node, arg, s int) (verdict, *refm) {
 	detail := fmt.Sprintf("library (%v, state %d), reference (%v, state %d); library callbacks %v, reference callbacks %v", gotR, gotS, wantR, wantS, lg.entries, m.l.entries)
 	for _, e := range stray {
 		if strings.HasPrefix(e, "handler:") {
-			return verdict{"handler-args", "a recovery handler was invoked as " + e + ", which the reference (error and post-failure state) never does; " + detail}, m
+			return verdict{"handler-args", "a recovery handler was invoked as " + e + ", which the reference (error and post-failure state) never does; " + detail}
 		}
 	}
 	if len(stray) > 0 {
-		return verdict{"ran-unexpectedly", "callback invocation " + stray[0] + " does not occur in the reference run (a step after a failure ran, or a step saw the wrong state/value); " + detail}, m
+		return verdict{"ran-unexpectedly", "callback invocation " + stray[0] + " does not occur in the reference run (a step after a failure ran, or a step saw the wrong state/value); " + detail}
 	}
 	if gotS != wantS {
-		return verdict{"state", detail}, m
+		return verdict{"state", detail}
 	}
 	if gotR != wantR {
-		return verdict{"value", detail}, m
+		return verdict{"value", detail}
 	}
-	return verdict{}, m
+	return verdict{}
+}
+
+// check builds the library program for n ONCE (with everything it is built from: the
+// sequences, slices and iterators handed to Traverse/FoldM/Sequence) and runs that one value
+// from state s, again from s, and from one other state; every run is compared with the
+// reference run from the same state. A StateT is a function of the initial state, so later
+// runs must not differ from the first; their verdicts carry the suffix /second-run. The
+// returned reference machine is the one of the first run.
+func check(n *node, arg, s int) (verdict, *refm) {
+	first := &refm{firstFail: -1}
+	first.outR, first.outS = first.ref(n, arg, s)
+	lg := &logger{}
+	var prog ST
+	if p := mc.Catch(func() { prog = build(funcs{lg}, n, arg) }); p != nil {
+		return verdict{"panic", fmt.Sprintf("building the program panicked: %v", p)}, first
+	}
+	type runSpec struct {
+		s      int
+		suffix string
+		what   string
+	}
+	runs := []runSpec{{s, "", "first run"}}
+	if !takesIterator(n) {
+		runs = append(runs, runSpec{s, "/second-run", "second run of the same StateT value from the same state"},
+			runSpec{(s + 1) % 3, "/second-run", "third run of the same StateT value, from another state"})
+	}
+	for i, r := range runs {
+		m := first
+		if i > 0 {
+			m = &refm{firstFail: -1}
+			m.outR, m.outS = m.ref(n, arg, r.s)
+		}
+		lg.entries = nil
+		var got fp.Try[int]
+		var gotS int
+		if p := mc.Catch(func() { got, gotS = prog.Run(r.s) }); p != nil {
+			return verdict{"panic" + r.suffix, fmt.Sprintf("%s (state %d) panicked: %v", r.what, r.s, p)}, first
+		}
+		if v := compare(m, lg, got, gotS); v.kind != "" {
+			if i > 0 {
+				v.msg = fmt.Sprintf("%s (state %d) differs although the first run from state %d agreed with the reference: %s", r.what, r.s, s, v.msg)
+			}
+			return verdict{v.kind + r.suffix, v.msg}, first
+		}
+	}
+	return verdict{}, first
 }
 
 var probeArgs = []int{0, 1, 2, 5, 7, 12, 101}
@@ -987,6 +1040,11 @@ func judge(x *mc.X, p *node, s int, sz int) *refm {
 		x.NonTrivial()
 	}
 	x.Tag("root=" + ops[p.op].name)
+	if takesIterator(p) {
+		x.Tag("runs-of-the-built-value=1 (caller-supplied iterator argument)")
+	} else {
+		x.Tag("runs-of-the-built-value=3 (same state twice, one other state)")
+	}
 	if m.firstFail >= 0 {
 		x.Tag(fmt.Sprintf("first-failure@step%d", m.firstFail))
 		if m.recovered {
@@ -1251,9 +1309,11 @@ func laws(x *mc.X) {
 
 func main() {
 	mc.Main("C17", func(r *mc.Registry) {
-		r.Rule = "programs: every AST with at most N nodes over the alphabet in bounds (leaf Pure(arg)/Modify(+arg) only under a binder) x every initial state in {0,1,2}; failing leaves (FromTry(Failure), ModifyT, GetST, MapT, MapWithStateT) are ordinary alphabet members, so a failure is injected at every position; non-trivial = the reference ran at least two primitive steps or a failure occurred; distinct = (program, initial state, result, final state). laws: law x initial state x Put argument x all 27 functions on {0,1,2}. recover-after-state-change: (program of a fixed family that changes the state through Put/Modify/ModifyS/Modify(+arg) and fails with e1 or e2, at every position of FlatMapConst/FlatMap/Map2/Zip/Concat/Sequence/Traverse*/FoldM/WithState compositions of 2-3 steps) x (each of the eight Recover* methods, Transform, TransformWith; RecoverWith/RecoverCaseWith/TransformWith with each of ten handler programs that read, keep, overwrite or modify the state or fail) x (alone | followed by Get) x initial state, same reference and key naming"
+		r.Rule = "every execution runs one built StateT value up to three times (see assumptions). programs: every AST with at most N nodes over the alphabet in bounds (leaf Pure(arg)/Modify(+arg) only under a binder) x every initial state in {0,1,2}; failing leaves (FromTry(Failure), ModifyT, GetST, MapT, MapWithStateT) are ordinary alphabet members, so a failure is injected at every position; non-trivial = the reference ran at least two primitive steps or a failure occurred; distinct = (program, initial state, result, final state). laws: law x initial state x Put argument x all 27 functions on {0,1,2}. recover-after-state-change: (program of a fixed family that changes the state through Put/Modify/ModifyS/Modify(+arg) and fails with e1 or e2, at every position of FlatMapConst/FlatMap/Map2/Zip/Concat/Sequence/Traverse*/FoldM/WithState compositions of 2-3 steps) x (each of the eight Recover* methods, Transform, TransformWith; RecoverWith/RecoverCaseWith/TransformWith with each of ten handler programs that read, keep, overwrite or modify the state or fail) x (alone | followed by Get) x initial state, same reference and key naming"
 		r.Assumptions = []string{
 			"the reference interpreter ref(e)(s) in the driver encodes the statement: state flows left to right; after a failing step nothing later runs and the state is the state at the failure; a Recover* handler gets the error and that state, which is the state returned (RecoverWith/RecoverCaseWith: the handler's program starts from it)",
+			"each execution builds the library program once (including the Seq/slice/iterator inputs of Traverse/FoldM/Sequence) and runs that one value from the chosen state, again from the same state and from the next state (mod 3); every run is compared with the reference run from its state, callback logs per run; keys of the later runs end in /second-run",
+			"a program that contains a combinator taking a caller-supplied fp.Iterator (FoldM, Traverse, SequenceIterator) is only run once: an iterator is single-use, so only the first run of such a StateT is demanded; TraverseSeq, TraverseSlice and Sequence (slice arguments) are run three times",
 			"callback logs are compared by containment: every user-function invocation made by the library (with its arguments) must also occur in the reference run; missing or repeated invocations are not demanded",
 			"functions that only construct a sub-program (FlatMap continuation, Traverse/FoldM body, RecoverWith handler) are not logged: constructing a later step without running it is not what the statement forbids",
 			"PeekState's observer may or may not run after a failure (not stated)",
